@@ -26,7 +26,7 @@ func init() {
 		Assumptions: []string{
 			"the model follows docs/lang.md 'Sharing, copying and mutation' and the builtin docstrings: views share elements, non-mutating operations return fresh storage, append! grows its own target, stable-sort permutes its target in place and returns a fresh list for a program literal",
 			"whether growing a vector with append! moves it to new storage is unspecified (capacity is an implementation detail): once a vector that has outstanding views is grown, later in-place effects between it and those views are not judged (the affected values are skipped until reassigned)",
-			"map key spelling (symbol vs string) is presentation and compared by name only",
+			"a map key written consistently as a string (or as a symbol) throughout its lineage must keep that spelling in the printed form and in keys; a key written both ways has no specified spelling and is compared by name only",
 		},
 		Cases:       func(tier string) int { return pick(tier, 5000, 300000) },
 		Run:         c11Run,
@@ -38,9 +38,9 @@ func init() {
 
 type c11Backing struct {
 	cells   []*c11Val
-	views   int            // views ever taken over this backing
-	linked  []*c11Backing  // backings that MAY be the same storage (after an append! with outstanding views)
-	tainted bool           // contents no longer predictable
+	views   int           // views ever taken over this backing
+	linked  []*c11Backing // backings that MAY be the same storage (after an append! with outstanding views)
+	tainted bool          // contents no longer predictable
 }
 
 type c11Val struct {
@@ -52,8 +52,10 @@ type c11Val struct {
 	sealed bool // (a view of) a program literal
 	m      map[string]*c11Val
 	msym   map[string]bool
+	spell  map[string]string // per key: "s" written as string, "y" as symbol, "*" both in its lineage (not judged)
 	by     []byte
 	prov   string // provenance class for coverage
+	kind2  string // keyname: spelling state
 }
 
 func (v *c11Val) elems() []*c11Val { return v.b.cells[v.off : v.off+v.n] }
@@ -103,7 +105,7 @@ func (v *c11Val) toTree(d int) *tree.T {
 	case "bytes":
 		return &tree.T{K: "bytes", S: string(v.by)}
 	case "keyname":
-		return &tree.T{K: "name", S: v.s}
+		return &tree.T{K: "name", S: v.s + "|" + v.kind2}
 	case "list", "vector":
 		t := &tree.T{K: v.kind, Q: true}
 		for _, e := range v.elems() {
@@ -118,7 +120,11 @@ func (v *c11Val) toTree(d int) *tree.T {
 		}
 		sort.Strings(ks)
 		for _, k := range ks {
-			t.Kids = append(t.Kids, &tree.T{K: "key", S: k}, v.m[k].toTree(d+1))
+			sp := v.spell[k]
+			if sp == "" {
+				sp = "*"
+			}
+			t.Kids = append(t.Kids, &tree.T{K: "key", S: k + "|" + sp}, v.m[k].toTree(d+1))
 		}
 		return t
 	}
@@ -226,10 +232,10 @@ func c11IsIntSeq(v *c11Val) bool {
 	return true
 }
 
-func c11IsSeq(v *c11Val) bool  { return v.kind == "list" || v.kind == "vector" }
-func c11IsList(v *c11Val) bool { return v.kind == "list" }
-func c11IsVec(v *c11Val) bool  { return v.kind == "vector" }
-func c11IsMap(v *c11Val) bool  { return v.kind == "map" }
+func c11IsSeq(v *c11Val) bool   { return v.kind == "list" || v.kind == "vector" }
+func c11IsList(v *c11Val) bool  { return v.kind == "list" }
+func c11IsVec(v *c11Val) bool   { return v.kind == "vector" }
+func c11IsMap(v *c11Val) bool   { return v.kind == "map" }
 func c11IsBytes(v *c11Val) bool { return v.kind == "bytes" }
 
 func c11CopyCells(xs []*c11Val) []*c11Val { return append([]*c11Val(nil), xs...) }
@@ -275,7 +281,7 @@ func c11Step(r *fw.RNG, h *c11Heap) (src, opname, sig string) {
 		v.sealed = true
 		return setq(v, "'("+strings.TrimSpace(txt)+")"), op, op
 	case "sorted-map":
-		m := &c11Val{kind: "map", m: map[string]*c11Val{}, msym: map[string]bool{}, prov: "fresh"}
+		m := &c11Val{kind: "map", m: map[string]*c11Val{}, msym: map[string]bool{}, spell: map[string]string{}, prov: "fresh"}
 		var sb strings.Builder
 		for i := r.Range(0, 4); i > 0; i-- {
 			k := fw.Pick(r, []string{"a", "b", "c", "k1", "zz"})
@@ -283,8 +289,10 @@ func c11Step(r *fw.RNG, h *c11Heap) (src, opname, sig string) {
 			m.m[k] = c11Int(x)
 			if r.Bool() {
 				fmt.Fprintf(&sb, " %q %d", k, x)
+				c11Spell(m, k, "s")
 			} else {
 				fmt.Fprintf(&sb, " '%s %d", k, x)
+				c11Spell(m, k, "y")
 			}
 		}
 		return setq(m, "(sorted-map"+sb.String()+")"), op, op
@@ -462,16 +470,24 @@ func c11Step(r *fw.RNG, h *c11Heap) (src, opname, sig string) {
 		}
 		k := fw.Pick(r, []string{"a", "b", "c", "k1", "zz", "new"})
 		ktxt := fmt.Sprintf("%q", k)
+		ksp := "s"
 		if r.Bool() {
 			ktxt = "'" + k
+			ksp = "y"
 		}
 		target := v
 		mut := strings.HasSuffix(op, "!")
 		if !mut {
-			target = &c11Val{kind: "map", m: map[string]*c11Val{}, msym: map[string]bool{}, prov: "fresh"}
+			target = &c11Val{kind: "map", m: map[string]*c11Val{}, msym: map[string]bool{}, spell: map[string]string{}, prov: "fresh"}
 			for kk, e := range v.m {
 				target.m[kk] = e
+				target.spell[kk] = v.spell[kk]
 			}
+		}
+		if strings.HasPrefix(op, "assoc") {
+			c11Spell(target, k, ksp)
+		} else if target.spell != nil {
+			delete(target.spell, k)
 		}
 		var form string
 		if strings.HasPrefix(op, "assoc") {
@@ -509,7 +525,11 @@ func c11Step(r *fw.RNG, h *c11Heap) (src, opname, sig string) {
 		sort.Strings(ks)
 		cs := make([]*c11Val, len(ks))
 		for i, k := range ks {
-			cs[i] = &c11Val{kind: "keyname", s: k}
+			sp := v.spell[k]
+			if sp == "" {
+				sp = "*"
+			}
+			cs[i] = &c11Val{kind: "keyname", s: k, kind2: sp}
 		}
 		nv := c11Seq("list", cs, "fresh")
 		return setq(nv, fmt.Sprintf("(keys %s)", n)), op, op
@@ -542,7 +562,7 @@ func c11Step(r *fw.RNG, h *c11Heap) (src, opname, sig string) {
 		if v1 == nil {
 			return "", "", ""
 		}
-		m := &c11Val{kind: "map", m: map[string]*c11Val{"inner": v1, "n": c11Int(1)}, msym: map[string]bool{}, prov: "fresh-nested"}
+		m := &c11Val{kind: "map", m: map[string]*c11Val{"inner": v1, "n": c11Int(1)}, msym: map[string]bool{}, spell: map[string]string{"inner": "s", "n": "s"}, prov: "fresh-nested"}
 		return setq(m, fmt.Sprintf("(sorted-map \"inner\" %s \"n\" 1)", n1)), op, op + "|" + v1.kind
 	case "append!", "append!-bind":
 		n, v := h.pick(r, c11IsVec)
@@ -699,14 +719,47 @@ func c11Run(w *fw.W, idx int) {
 	}
 }
 
-// c11Align: where the model expects a key NAME (what `keys` returns), the real
-// value may spell it as a string or as a symbol: spelling is presentation.
+// c11Spell records how a key was written.  A key written both ways in its
+// lineage has no specified spelling and is not judged.
+func c11Spell(m *c11Val, k, sp string) {
+	if m.spell == nil {
+		m.spell = map[string]string{}
+	}
+	switch cur := m.spell[k]; {
+	case cur == "":
+		m.spell[k] = sp
+	case cur != sp:
+		m.spell[k] = "*"
+	}
+}
+
+// c11Align gives the real tree's map keys and key names the model's notation
+// name|spelling ("s" string, "y" symbol); where the model says "*" (both
+// spellings were used) the real spelling is not judged.
 func c11Align(want, got *tree.T) {
 	if want == nil || got == nil {
 		return
 	}
 	if want.K == "name" && (got.K == "string" || got.K == "symbol") {
-		got.K, got.Q = "name", false
+		sp := "s"
+		if got.K == "symbol" {
+			sp = "y"
+		}
+		if strings.HasSuffix(want.S, "|*") {
+			sp = "*"
+		}
+		got.K, got.Q, got.S = "name", false, got.S+"|"+sp
+		return
+	}
+	if want.K == "key" && got.K == "key" {
+		sp := "s"
+		if got.Q {
+			sp = "y"
+		}
+		if strings.HasSuffix(want.S, "|*") {
+			sp = "*"
+		}
+		got.S = got.S + "|" + sp
 		return
 	}
 	for i := range want.Kids {
